@@ -1,5 +1,5 @@
 # Per-property prose for MANIFEST.json.
-HOOK_COMMITS = []
+HOOK_COMMITS = ["c0392a7 verif hook: dvid.VerifPoint (no-op unless built with tag verif)", "086a371 verif hook: read-only identifier-map introspection shim (build tag verif)", "f834000 verif hook: RPC switchboard and server-mode shims (build tag verif)"]
 NOT_APPLICABLE = {}
 TEXT = {
     "C15": {
@@ -21,5 +21,20 @@ TEXT = {
         "technique": "property-based testing (rapid): stateful histories with differential oracle (range/listing endpoints vs point reads) plus DAG model; boundary-steered bulk DeleteRange",
         "level_text": "Generated histories over a prefix-related key universe on branched/merged DAGs, then every range consumer (4 storage-level, 7 HTTP variants incl. JSON/tar/protobuf) compared with point reads key by key, ascending and once each; DeleteRange followed by a full (key,node) sweep; a bulk test steers the number of deleted keys to the store's internal batch size and its multiples.",
         "level_note": "10-key universe, <=~10 nodes; intervals containing an unresolved merge conflict may be refused and DeleteRange is not exercised over them.",
+    },
+    "C09": {
+        "technique": "property-based testing (rapid): round-trip oracle for the block codec (MakeBlock/SubvolumeToBlock/MakeSolidBlock -> MakeLabelVolume/WriteLabelVolume, Marshal -> Unmarshal) and a naive []uint64 model for every view (Value, GetPointLabels, CalcNumLabels, WriteRLEs, WriteBinaryBlocks->ReceiveBinaryBlocks); native go fuzz target (bytes -> shape, per-sub-block label count, label stream) in thorough",
+        "level_text": "Generated-input exploration with an independent reference: arrays are built per 8x8x8 sub-block with a chosen number of distinct labels so that every index bit width 0..9 and every byte-straddling offset occurs, for cubic, non-cubic, 64^3 and elongated block sizes and labels up to 2^64-1; each compressed block is decoded and compared voxel for voxel, the documented layout counts (labels per block / per sub-block) are compared with the array, every block offset of a larger sub-volume is converted, and each view taken on the compressed form (all voxels as query points on blocks up to 32^3) is compared with the same view computed on the array, including rows of adjacent blocks, negative block coordinates and label tables with duplicate / dead entries. Pure functions, thousands of blocks per run; no absence claim.",
+        "level_note": "Sub-volumes are block aligned; sparse outputs are taken without bounds and never for label 0; out-of-block query points are only checked for Value (GetPointLabels: unasserted observation O1 in props/c09/FINDINGS.md); block sizes with an odd number of sub-blocks are only covered until the MakeBlock finding for them is listed (then the generator makes the count even).",
+    },
+    "C10": {
+        "technique": "property-based testing (rapid): model-based - every block operation (MergeLabels, ReplaceLabel(s), Split, SplitSupervoxel(s), SplitStats, DoSplitWithStats, Downres, DownresSlow, DownresLabels) against a naive []uint64 implementation, single operations and sequences of 2-4 operations on one block; differential sub-check DownresFast vs DownresSlow",
+        "level_text": "Generated-input exploration with an independent reference: the operation's result is decoded with MakeLabelVolume and compared voxel for voxel with the voxel-wise operation on the decoded input; reported counts (keptSize, splitSize, replaceSize, SVSplitCount.Voxels, CalcNumLabels deltas) are compared with counts taken from the arrays; the input block is re-decoded after each call. Generators target table aliasing (target present/absent, duplicates after replacement, label 0 as source and destination, merges on merged blocks), split run sets in DVID voxel space incl. negative block coordinates, and all combinations of absent / solid / mixed octants with fresh and existing receivers. No absence claim.",
+        "level_note": "splitFast is unexported and unreachable and is not exercised; DownresFast is compared with DownresSlow only for even sub-block counts per axis (it refuses others); Downres is always given at least one octant; split run sets are non-overlapping and inside the block.",
+    },
+    "C07": {
+        "technique": "property-based testing (rapid): stateful request histories with operand kinds; invariant oracle over the whole metadata after every request + 'rejected => unchanged' metamorphic oracle",
+        "level_text": "Generated histories of valid and invalid repo-level requests; after each one the complete metadata snapshot (repos/info, DAG links, locked flags, notes, logs, branch heads, uuid<->version maps via a read-only shim) is checked for well-formedness, compared with the previous snapshot when the request was refused, and checked for exactly one new node with the requested parents when a DAG-growing request was accepted.",
+        "level_note": "<=40 requests, <=3 repos per history; status codes used only as 2xx vs not; instance/repo deletion reached through the real RPC switchboard (shim).",
     },
 }
